@@ -184,6 +184,12 @@ func runC10(c *core.Ctx) {
 		c.Violate("lossless", "C10/nal-sequence/output-not-framed", "receiver output is not a sequence of %s-framed units", map[bool]string{true: "AVC", false: "Annex-B"}[avc])
 		return
 	}
+	for i, u := range units {
+		if len(u) == 0 {
+			c.Violate("lossless", "C10/nal-sequence/empty-unit", "the receiver produced an empty unit at position %d of %d (mtu %d)", i, len(units), mtu)
+			return
+		}
+	}
 	if supersede {
 		c.Probe("superseded-parameter-sets")
 		// (1) the ordinary units arrive exactly, in order; (2) every received parameter set is one that was
@@ -270,6 +276,8 @@ func runC10(c *core.Ctx) {
 		stapTooBig = true
 	}
 	switch {
+	case len(missing) == 0:
+		c.Violate("lossless", fmt.Sprintf("C10/nal-sequence/count-differs/%s", c.Config), "sent %d units, received %d: the receiver produced units that were never sent (mtu %d)", len(want), len(units), mtu)
 	case onlyParams && stapTooBig:
 		c.Violate("lossless", "C10/nal-sequence/sps-pps-missing/stapa>mtu", "%d parameter set(s) never arrived: the SPS+PPS STAP-A (%d bytes) exceeds the MTU %d and was dropped", len(missing), 1+2+len(missing[0])+2+len(missing[1]), mtu)
 	case onlyParams:
